@@ -1,298 +1,198 @@
 /-
-  The `PNewLine` flag ("a line break stands between `)` and the `(` that follows": the parser's
-  "ambiguous syntax (function call x new statement)" check) on rendered token lists.
+  The `PNewLine` flag ("the `(` stands on a later line than the `)` before it": what the parser's "ambiguous syntax
+  (function call x new statement)" test reads).
 
-  `Scan` computes the flag from the *last* run of blanks it skipped: a comment between the line break and the `(`
-  sends it back to `redo` and the flag is lost (known finding `C08-comment-hides-newline-before-paren`).
+  Since the repair `fixes/C08-pnewline-through-comments.diff` `Scan` compares the scanner's line with the line of the
+  previous token, so the flag is a function of the token stream itself (types and lines) — for every input — and on
+  renderings it says whether a line terminator stands in the gap between `)` and `(`, blanks and comments alike.
 -/
 import GLua.Proofs.LexerRT
 import GLua.Proofs.LexerRTLong
+import GLua.Proofs.LexSpecRTStr
 
 namespace GLua.Lexer
 open GLua.Generated.Lexer
 open GLua.LexSpec (Bytes)
 open GLua.LexRender
 
-/-! ### the newline flag of the blank-skipping prologue -/
+/-! ### the flag of one `Scan` call, for every input -/
 
-theorem ws1_first (c : UInt8) (r : List UInt8) (hc : Plain c) (hcw : wsBit whitespace1 (c.toNat : Int) = false) :
-    ∀ (bs : List UInt8), (∀ b ∈ bs, IsBlank b) → ∀ s : Sc, s.rest = bs ++ c :: r →
-      (skipWsLoop whitespace1 (next s).1 (next s).2).1 = if bs.any LexSpec.isNewline then 10 else (c.toNat : Int) := by
-  intro bs
-  induction bs with
-  | nil =>
-    intro _ s hs
-    obtain ⟨e1, _, _⟩ := next_of_rest s c r (by simpa using hs) hc
-    rw [e1, skipWsLoop_false _ _ _ hcw]; rfl
-  | cons b bs' ih =>
-    intro hall s hs
-    have hb := hall b (List.mem_cons_self ..)
-    have hall' : ∀ x ∈ bs', IsBlank x := fun x hx => hall x (List.mem_cons_of_mem _ hx)
-    have hs' : s.rest = b :: (bs' ++ c :: r) := by rw [hs]; rfl
-    by_cases hnl : b = 10 ∨ b = 13
-    · obtain ⟨e1, _⟩ := next_nl s b _ hs' hnl
-      rw [e1, skipWsLoop_false _ _ _ (by decide)]
-      have : LexSpec.isNewline b = true := by rcases hnl with rfl | rfl <;> decide
-      simp [this]
-    · have hpb := isBlank_cases b hb hnl
-      obtain ⟨hw, hp⟩ := wsBit_plain_blank whitespace1 b hpb (by decide) (by decide) (by decide) (by decide)
-      obtain ⟨e1, e2, _⟩ := next_of_rest s b _ hs' hp
-      rw [e1, skipWsLoop_true _ _ _ hw, ih hall' (next s).2 e2]
-      have : LexSpec.isNewline b = false := by
-        simp only [LexSpec.isNewline, Bool.or_eq_false_iff, beq_eq_false_iff_ne, ne_eq]
-        exact ⟨fun h => hnl (Or.inl h), fun h => hnl (Or.inr h)⟩
-      simp [this]
+theorem reserved_ne_40 : ∀ p ∈ reservedWords, p.2 ≠ 40 := by decide
 
-/-- the newline flag of the prologue = "the run of blanks contains a line terminator". -/
-theorem skipBlanks_flag (bs : List UInt8) (hall : ∀ b ∈ bs, IsBlank b) (c : UInt8) (r : List UInt8)
-    (hc : Plain c) (hc1 : wsBit whitespace1 (c.toNat : Int) = false) (s : Sc) (hs : s.rest = bs ++ c :: r) :
-    (skipBlanks s).2.2 = bs.any LexSpec.isNewline := by
-  have h := ws1_first c r hc hc1 bs hall s hs
-  unfold skipBlanks skipWhiteSpace
-  simp only []
-  rw [h]
-  cases hany : bs.any LexSpec.isNewline with
-  | true => simp
-  | false =>
-    have := plain_toNat c hc
-    simp only [Bool.false_eq_true, if_false, this]
+theorem lookupReserved_ne_40 (w : Bytes) (ty : Nat) (h : lookupReserved w = some ty) : (ty : Int) ≠ 40 := by
+  unfold lookupReserved at h
+  rw [Option.map_eq_some_iff] at h
+  obtain ⟨p, hp, rfl⟩ := h
+  have := reserved_ne_40 p (List.mem_of_find?_eq_some hp)
+  omega
 
-/-- the flag `Scan` returns for a run of blanks followed by a rendered token. -/
-theorem scan_tok_pnl (prev : Int) (t : RTok) (r : Bytes) (hT : TokScan t r)
-    (bs : Bytes) (hall : ∀ b ∈ bs, IsBlank b) (s : Sc) (hs : s.rest = bs ++ (t.render ++ r))
-    (tok : Token) (pnl : Bool) (s' : Sc) (h : scan prev s = .tok tok pnl s') :
-    pnl = (decide (t.render.head? = some 40 ∧ prev = 41) && bs.any LexSpec.isNewline) := by
-  obtain ⟨c, tail, hr, hcb, hnc, hscan⟩ := hT
-  obtain ⟨hpl, hw1, hw2⟩ := tokStart_of_not_blank c hcb
-  have hs' : s.rest = bs ++ c :: (tail ++ r) := by rw [hs, hr]; rfl
-  obtain ⟨h1, h2⟩ := skipBlanks_run bs hall c (tail ++ r) hpl hw1 hw2 s hs'
-  have hflag := skipBlanks_flag bs hall c (tail ++ r) hpl hw1 s hs'
-  have hc : ¬ ((skipBlanks s).1 = 45 ∧ peek (skipBlanks s).2.1 = 45) := by
-    rintro ⟨a1, a2⟩
-    rw [h1] at a1
-    rcases hnc with hne | hh
-    · exact hne (toNat_eq_45 c a1)
-    · exact peek_ne_of _ _ h2 45 hh a2
-  obtain ⟨s'', hst, _⟩ := hscan (skipBlanks s).2.1 h2
-  rw [← h1] at hst
-  unfold mkTok at hst
-  rw [scan_token prev s _ _ hc hst] at h
-  simp only [ScanRes.tok.injEq] at h
-  rw [← h.2.1, hflag, h1, hr]
-  have hc40 : ((c.toNat : Int) = 40) ↔ c = 40 := by
-    constructor
-    · intro e
-      have : c.toNat = (40 : UInt8).toNat := by
-        have : (40 : UInt8).toNat = 40 := rfl
-        omega
-      exact UInt8.toNat_inj.mp this
-    · intro e; rw [e]; rfl
-  by_cases hcp : (c.toNat : Int) = 40 ∧ prev = 41
-  · simp [hcp, hc40.mp hcp.1]
-  · have : ¬ (c = 40 ∧ prev = 41) := fun hh => hcp ⟨hc40.mpr hh.1, hh.2⟩
-    simp [hcp, this]
+theorem scanDot_type (ch : Int) (s : Sc) (t : Token) (s' : Sc) (h : scanDot ch s = .ok (t, s')) : t.type ≠ 40 := by
+  unfold scanDot at h
+  repeat' split at h
+  all_goals (try simp only [mkTok, Except.ok.injEq, Prod.mk.injEq, reduceCtorEq] at h)
+  all_goals (try (obtain ⟨h1, _⟩ := h; rw [← h1]; simp only [TNumber, T3Comma, T2Comma]; omega))
 
-/-- the EOF token never carries the flag. -/
-theorem scan_eof_pnl (prev : Int) (bs : Bytes) (hall : ∀ b ∈ bs, IsBlank b) (s : Sc) (hs : s.rest = bs)
-    (tok : Token) (pnl : Bool) (s' : Sc) (h : scan prev s = .tok tok pnl s') : pnl = false := by
-  obtain ⟨h1, _⟩ := skipBlanks_eof bs hall s hs
-  have hc : ¬ ((skipBlanks s).1 = 45 ∧ peek (skipBlanks s).2.1 = 45) := by rw [h1]; omega
-  have hst : scanToken (skipBlanks s).1 (skipBlanks s).2.1 =
-      .ok ({ type := -1, str := [], line := (skipBlanks s).2.1.line, col := (skipBlanks s).2.1.col,
-             off := (skipBlanks s).2.1.off }, (skipBlanks s).2.1) := by
-    rw [h1]
-    simp [scanToken, isIdent, isDecimal]
-  rw [scan_token prev s _ _ hc hst] at h
-  simp only [ScanRes.tok.injEq] at h
-  rw [← h.2.1, h1]
-  simp
+theorem scanPunct_type (ch : Int) (s : Sc) (t : Token) (s' : Sc) (h : scanPunct ch s = .ok (t, s'))
+    (e : t.type = 40) : ch = 40 := by
+  unfold scanPunct at h
+  repeat' split at h
+  all_goals (try simp only [mkTok, Except.ok.injEq, Prod.mk.injEq, reduceCtorEq] at h)
+  all_goals (try (obtain ⟨h1, _⟩ := h; rw [← h1] at e; simp only [TEqeq, TNeq, TLte, TGte, T2Colon] at e; omega))
 
-/-! ### the whole token list -/
+/-- the token switch returns the token `(` exactly when it is entered with the character `(`. -/
+theorem scanToken_type40 (ch : Int) (s : Sc) (t : Token) (s' : Sc) (h : scanToken ch s = .ok (t, s')) :
+    t.type = 40 ↔ ch = 40 := by
+  constructor
+  · intro e
+    unfold scanToken at h
+    repeat' split at h
+    all_goals (try simp only [mkTok, Except.ok.injEq, Prod.mk.injEq, reduceCtorEq] at h)
+    all_goals first
+      | exact absurd e (scanDot_type _ _ _ _ h)
+      | exact scanPunct_type _ _ _ _ h e
+      | (obtain ⟨h1, _⟩ := h; rw [← h1] at e; simp only at e
+         first
+           | exact absurd e (lookupReserved_ne_40 _ _ ‹_›)
+           | (simp only [TIdent, TNumber, TString] at e; omega)
+           | omega)
+  · intro e
+    subst e
+    unfold scanToken at h
+    simp [isIdent, isDecimal, scanPunct, mkTok] at h
+    rw [← h.1]
 
-/-- the expected flags: true exactly for a token that starts with `(` directly after a token of type `)` when the
-    gap between them contains a line terminator. -/
-def pnlFrom (lay : Layout) : Nat → Int → List RTok → List Bool
-  | _, _, [] => [false]
-  | i, prevTy, t :: ts =>
-    (decide (t.render.head? = some 40 ∧ prevTy = 41) && (renderSeps (lay i)).any LexSpec.isNewline) ::
-      pnlFrom lay (i + 1) (tokType t) ts
+/-- **the flag of one `Scan` call**: a function of the token, the previous token's type and the two lines. -/
+theorem scan_pnl (prev : Prev) (s : Sc) (t : Token) (pnl : Bool) (s' : Sc) (h : scan prev s = .tok t pnl s') :
+    pnl = decide (t.type = 40 ∧ prev.type = 41 ∧ t.line ≠ prev.line) := by
+  fun_induction scan prev s
+  · simp at h
+  · rename_i ih; exact ih h
+  · simp at h
+  · rename_i s hc t' s'' hst
+    simp only [ScanRes.tok.injEq] at h
+    obtain ⟨h1, h2, _⟩ := h
+    subst h1
+    have h40 := scanToken_type40 _ _ _ _ hst
+    obtain ⟨_, tl, _, _⟩ := scanToken_reach _ _ _ _ hst
+    rw [← h2, tl]
+    by_cases hc40 : (skipBlanks s).1 = 40 ∧ prev.type = 41
+    · simp [hc40, h40.mpr hc40.1]
+    · have : ¬ (t'.type = 40 ∧ prev.type = 41) := fun hh => hc40 ⟨h40.mp hh.1, hh.2⟩
+      simp only [hc40, if_false]
+      symm
+      rw [decide_eq_false_iff_not]
+      intro hh; exact this ⟨hh.1, hh.2.1⟩
 
-/-- the guard: no comment stands between a `)` and a `(`. -/
-def pnlGuard (lay : Layout) : Nat → Int → List RTok → Bool
-  | _, _, [] => true
-  | i, prevTy, t :: ts =>
-    (!decide (t.render.head? = some 40 ∧ prevTy = 41) || (lay i).all (fun x => !x.isComment)) &&
-      pnlGuard lay (i + 1) (tokType t) ts
+/-- the flags of a whole stream follow from its types and lines. -/
+def PnlOK : Prev → List (Token × Bool) → Prop
+  | _, [] => True
+  | prev, (t, pnl) :: rest =>
+    pnl = decide (t.type = 40 ∧ prev.type = 41 ∧ t.line ≠ prev.line) ∧ PnlOK { type := t.type, line := t.line } rest
 
-theorem renderSeps_blank (g : List Sep) (hw : ∀ x ∈ g, x.wf = true) (hc : g.all (fun x => !x.isComment) = true) :
-    ∀ b ∈ renderSeps g, IsBlank b := by
+theorem lexAll_pnl (prev : Prev) (s : Sc) : PnlOK prev (lexAll prev s).toks := by
+  fun_induction lexAll prev s
+  · trivial
+  · rename_i prev s t pnl s' hs ht
+    exact ⟨scan_pnl prev s t pnl s' hs, trivial⟩
+  · rename_i prev s t pnl s' hs ht r ih
+    exact ⟨scan_pnl prev s t pnl s' hs, ih⟩
+
+/-! ### on renderings -/
+
+theorem tokType_41 (t : RTok) (hwf : t.wf = true) (h : tokType t = 41) : t.render = [41] := by
+  cases t with
+  | name w => simp [tokType, TIdent] at h
+  | kw k =>
+    have hk : k ∈ LexSpec.keywords := by simpa [RTok.wf] using hwf
+    have : ∀ k ∈ LexSpec.keywords, (((reservedWords.lookup k).getD 0 : Nat) : Int) ≠ 41 := by decide +kernel
+    exact absurd h (this k hk)
+  | sym sp =>
+    have hm : sp ∈ symbols := by simpa [RTok.wf] using hwf
+    have : ∀ sp ∈ symbols, symType sp = 41 → sp = [41] := by decide +kernel
+    simp only [RTok.render]
+    exact this sp hm h
+  | num n => simp [tokType, TNumber] at h
+  | str q cs => simp [tokType, TString] at h
+  | lstr l f c => simp [tokType, TString] at h
+
+theorem lineEnds_pos_iff (g : Bytes) : lineEnds g ≠ 0 ↔ g.any LexSpec.isNewline = true := by
   induction g with
-  | nil => intro b hb; simp [renderSeps] at hb
-  | cons x g' ih =>
-    intro b hb
-    rw [renderSeps_cons] at hb
-    simp only [List.all_cons, Bool.and_eq_true, Bool.not_eq_true'] at hc
-    cases x with
-    | blank b0 =>
-      simp only [Sep.render, List.cons_append, List.nil_append, List.mem_cons] at hb
-      rcases hb with rfl | hb
-      · exact isBlank_of_spec _ (by simpa [Sep.wf] using hw _ (List.mem_cons_self ..))
-      · exact ih (fun y hy => hw y (List.mem_cons_of_mem _ hy)) hc.2 b hb
-    | short t e => simp [Sep.isComment] at hc
-    | long l c => simp [Sep.isComment] at hc
+  | nil => simp [lineEnds_nil]
+  | cons b r ih =>
+    by_cases hb : LexSpec.isNewline b = true
+    · rw [LexSpec.lineEnds_nl b r ((LexSpec.isNewline_iff' b).mp hb)]
+      simp [hb]
+    · have hb' : LexSpec.isNewline b = false := by simpa using hb
+      rw [LexSpec.lineEnds_cons_plain b r hb']
+      simp [hb', ih]
 
-theorem lexAll_render_pnl (input : Bytes) (lay : Layout) :
-    ∀ (toks : List RTok) (i : Nat) (pt : Option RTok) (prev : Int) (s : Sc),
-      (∀ t ∈ toks, ∀ r, follow t r = true → TokScan t r) →
-      (∀ j, i ≤ j → j ≤ i + toks.length → GapScan (lay j)) →
-      wfFrom lay i pt toks = true → pnlGuard lay i prev toks = true → RestInv input s →
-      s.rest = renderFrom lay i toks →
-      (lexAll prev s).toks.map (fun p => p.2) = pnlFrom lay i prev toks := by
+/-- from the expected types and lines of the stream to its flags. -/
+theorem pnl_of_view (lay : Layout) : ∀ (toks : List RTok) (i k : Nat) (pre : Bytes) (prev : Prev)
+    (L : List (Token × Bool)), (∀ t ∈ toks, t.wf = true) →
+    L.map view = expectFrom lay i k toks → L.map (fun p => p.1.line) = linesFrom lay i pre toks →
+    PnlOK prev L →
+    (prev.type = 41 → ∃ P, pre = P ++ [41] ∧ prev.line = 1 + (lineEnds P : Int)) →
+    L.map (fun p => p.2) = pnlFrom lay i prev.type toks := by
   intro toks
   induction toks with
   | nil =>
-    intro i pt prev s _ hG hwf _ hI hs
-    simp only [wfFrom] at hwf
-    obtain ⟨hsw, hends⟩ := gapOK_parts _ _ _ hwf
-    have hGi := hG i (Nat.le_refl _) (by omega)
-    simp only [renderFrom] at hs
-    have key := scan_gap input prev [] (fun res => ∃ tok pnl s', res = .tok tok pnl s' ∧ tok.type = -1 ∧
-        pnl = false) false
-      (by intro c R' h; simp at h) (fun _ => rfl)
-      (by
-        intro bs s hall hI hs
-        obtain ⟨tok, pnl, s', h1, h2, _⟩ := scan_eof input prev bs hall s hI (by simpa using hs)
-        exact ⟨tok, pnl, s', h1, h2, scan_eof_pnl prev bs hall s (by simpa using hs) tok pnl s' h1⟩)
-      (lay i).length (lay i) (Nat.le_refl _) (fun x hx => ⟨hsw x hx, hGi x hx (hsw x hx)⟩) hends [] s (by simp) hI
-      (by simpa using hs)
-    obtain ⟨tok, pnl, s', hsc, h1, h2⟩ := key
-    obtain ⟨e1, _⟩ := lexAll_eof prev s s' tok pnl hsc (by omega)
-    rw [e1, h2]; rfl
+    intro i k pre prev L _ hv _ hok _
+    simp only [expectFrom] at hv
+    obtain ⟨p, L', rfl, hp, hL'⟩ := List.map_eq_cons_iff.mp hv
+    simp only [List.map_eq_nil_iff] at hL'
+    subst hL'
+    have hty : p.1.type = -1 := by
+      have := congrArg (fun e => e.1) hp; simpa [view] using this
+    obtain ⟨pt, pnl⟩ := p
+    simp only [PnlOK] at hok
+    simp only [List.map_cons, List.map_nil, pnlFrom, hok.1]
+    simp only at hty
+    simp [hty]
   | cons t ts ih =>
-    intro i pt prev s hT hG hwf hgd hI hs
-    simp only [wfFrom, Bool.and_eq_true] at hwf
-    obtain ⟨⟨_, hgap⟩, hrest⟩ := hwf
-    obtain ⟨hsw, hends⟩ := gapOK_parts _ _ _ hgap
-    have hGi := hG i (Nat.le_refl _) (by omega)
-    simp only [pnlGuard, Bool.and_eq_true, Bool.or_eq_true, Bool.not_eq_true'] at hgd
-    obtain ⟨hgd1, hgd2⟩ := hgd
-    simp only [renderFrom] at hs
-    have hfol : follow t (renderFrom lay (i + 1) ts) = true := by
-      cases ts with
-      | nil =>
-        simp only [wfFrom] at hrest
-        simp only [renderFrom]
-        have := gapOK_follow t (lay (i + 1)) none [] hrest rfl
-        simpa using this
-      | cons t2 ts2 =>
-        simp only [wfFrom, Bool.and_eq_true] at hrest
-        simp only [renderFrom]
-        obtain ⟨c2, tail2, hr2, _⟩ := hT t2 (by simp) [] (follow_nil t2)
-        exact gapOK_follow t (lay (i + 1)) (some t2) _ hrest.1.2 ⟨_, by rw [hr2]; simp, rfl⟩
-    have hTS := hT t (by simp) _ hfol
-    have hTS' := hTS
-    obtain ⟨c, tail, hr, hcb, _⟩ := hTS'
-    -- the result of this `Scan` call, with its flag
-    have key : ∃ tok pnl s', scan prev s = .tok tok pnl s' ∧ tok.type = tokType t ∧
-        s'.rest = renderFrom lay (i + 1) ts ∧ RestInv input s' ∧
-        pnl = (decide (t.render.head? = some 40 ∧ prev = 41) && (renderSeps (lay i)).any LexSpec.isNewline) := by
-      by_cases hcf : (lay i).all (fun x => !x.isComment) = true
-      · -- only blanks in the gap: one run
-        have hbl := renderSeps_blank (lay i) hsw hcf
-        obtain ⟨tok, pnl, s', h1, h2, _, _, h5, h6⟩ := scan_tok input prev t _ hTS (renderSeps (lay i)) hbl s hI hs
-        exact ⟨tok, pnl, s', h1, h2, h5, h6, scan_tok_pnl prev t _ hTS _ hbl s hs tok pnl s' h1⟩
-      · -- comments in the gap: by the guard this is not `)` `(`, and the flag is false whatever the blanks
-        have hnp : decide (t.render.head? = some 40 ∧ prev = 41) = false := by
-          rcases hgd1 with h | h
-          · exact h
-          · exact absurd h hcf
-        have := scan_gap input prev (t.render ++ renderFrom lay (i + 1) ts)
-          (fun res => ∃ tok pnl s', res = .tok tok pnl s' ∧ tok.type = tokType t ∧
-            s'.rest = renderFrom lay (i + 1) ts ∧ RestInv input s' ∧ pnl = false) true
-          (by
-            intro c' R' h
-            rw [hr] at h
-            simp only [List.cons_append, List.cons.injEq] at h
-            rw [← h.1]
-            exact (tokStart_of_not_blank c hcb).1)
-          (by intro h; simp at h)
-          (by
-            intro bs s0 hall hI0 hs0
-            obtain ⟨tok, pnl, s', h1, h2, _, _, h5, h6⟩ := scan_tok input prev t _ hTS bs hall s0 hI0 hs0
-            have := scan_tok_pnl prev t _ hTS bs hall s0 hs0 tok pnl s' h1
-            rw [hnp] at this
-            exact ⟨tok, pnl, s', h1, h2, h5, h6, by simpa using this⟩)
-          (lay i).length (lay i) (Nat.le_refl _) (fun x hx => ⟨hsw x hx, hGi x hx (hsw x hx)⟩) hends [] s (by simp) hI
-          (by simpa using hs)
-        obtain ⟨tok, pnl, s', h1, h2, h3, h4, h5⟩ := this
-        exact ⟨tok, pnl, s', h1, h2, h3, h4, by rw [h5, hnp]; rfl⟩
-    obtain ⟨tok, pnl, s', hsc, h1, h2, h3, h4⟩ := key
-    have hnn := tokType_nonneg t
-    obtain ⟨e1, _⟩ := lexAll_tok prev s s' tok pnl hsc (by omega)
-    have ih' := ih (i + 1) (some t) tok.type s' (fun t' ht' => hT t' (List.mem_cons_of_mem _ ht'))
-      (fun j h1 h2 => hG j (by omega) (by simp only [List.length_cons]; omega)) hrest (by rw [h1]; exact hgd2) h3 h2
-    rw [e1]
+    intro i k pre prev L hwf hv hl hok hprev
+    simp only [expectFrom] at hv
+    simp only [linesFrom] at hl
+    obtain ⟨p, L', rfl, hp, hL'⟩ := List.map_eq_cons_iff.mp hv
+    simp only [List.map_cons, List.cons.injEq] at hl
+    obtain ⟨pt, pnl⟩ := p
+    simp only [PnlOK] at hok
+    have hty : pt.type = tokType t := by
+      have := congrArg (fun e => e.1) hp; simpa [view] using this
+    have hline : pt.line = 1 + (lineEnds (pre ++ renderSeps (lay i)) : Int) := hl.1
     simp only [List.map_cons, pnlFrom]
-    rw [ih', h4, h1]
-
-/-! ### the witness of `C08-comment-hides-newline-before-paren`:  `)` LF `--c` LF `(` -/
-
-def pnlWitnessToks : List RTok := [.sym [41], .sym [40]]
-
-def pnlWitnessLayout : Layout := fun j => if j = 1 then [.blank 10, .short [99] (some 10)] else []
-
-theorem pnlWitness_render : render pnlWitnessToks pnlWitnessLayout = [41, 10, 45, 45, 99, 10, 40] := by
-  decide +kernel
-
-/-- the scanner's flags on the witness: the `(` on line 3 behind the `)` on line 1 does not carry the flag. -/
-theorem pnlWitness_flags :
-    (lex (render pnlWitnessToks pnlWitnessLayout)).toks.map (fun p => p.2) = [false, false, false] := by
-  rw [pnlWitness_render]
-  -- first token `)`
-  have hT1 : TokScan (.sym [41]) [10, 45, 45, 99, 10, 40] := tokScan_all _ (by decide +kernel) _ (by decide +kernel)
-  obtain ⟨tok1, pnl1, s1, a1, a2, _, _, a5, a6⟩ := scan_tok [41, 10, 45, 45, 99, 10, 40] 0 (.sym [41]) _ hT1 []
-    (by simp) (initSc [41, 10, 45, 45, 99, 10, 40]) (restInv_init _) rfl
-  have p1 := scan_tok_pnl 0 (.sym [41]) _ hT1 [] (by simp) (initSc [41, 10, 45, 45, 99, 10, 40]) rfl tok1 pnl1 s1 a1
-  have p1' : pnl1 = false := by rw [p1]; decide +kernel
-  have ty1 : tok1.type = 41 := by rw [a2]; decide +kernel
-  obtain ⟨e1, _⟩ := lexAll_tok 0 _ s1 tok1 pnl1 a1 (by omega)
-  -- the gap: a line feed, then the comment `--c` with its line feed
-  obtain ⟨h1, h2⟩ := skipBlanks_run [10] (by intro b hb; simp at hb; subst hb; unfold IsBlank; decide) 45
-    [45, 99, 10, 40] (by unfold Plain; decide) (by decide) (by decide) s1 (by rw [a5]; rfl)
-  have hp := peek_cons _ 45 _ h2
-  obtain ⟨f1, f2, _⟩ := next_of_rest _ 45 _ h2 (by unfold Plain; decide)
-  obtain ⟨body, hbody, hsc⟩ := commentScan_short [99] (some 10) (by decide +kernel) (by decide +kernel) [40]
-    (by intro h; simp [Sep.openEnded] at h)
-  have hb : body = [99, 10] := by
-    simp only [Sep.render, List.cons.injEq, true_and] at hbody
-    exact hbody.symm
-  subst hb
-  obtain ⟨s2, hk, hrest⟩ := hsc (next (skipBlanks s1).2.1).2 (by rw [f2]; rfl)
-  have f1' : (next (skipBlanks s1).2.1).1 = 45 := by rw [f1]; rfl
-  rw [← f1'] at hk
-  have hrest' : s2.rest = [40] := by
-    rcases hrest with h | ⟨b, r', hr, hb, _⟩
-    · exact h
-    · simp only [List.cons.injEq] at hr
-      rcases hb with rfl | rfl <;> exact absurd hr.1 (by decide)
-  have hI2 : RestInv [41, 10, 45, 45, 99, 10, 40] s2 :=
-    reach_restInv _ (((skipBlanks_reach s1).trans (Reach.next _)).trans (skipComments_reach _ _ _ hk)) a6
-  have hredo := scan_comment tok1.type s1 s2 ⟨by rw [h1]; rfl, by rw [hp]; rfl⟩ hk
-  -- second token `(`: scanned from behind the comment, with no blank before it
-  have hT2 : TokScan (.sym [40]) [] := tokScan_all _ (by decide +kernel) _ (by decide +kernel)
-  obtain ⟨tok2, pnl2, s3, b1, b2, _, _, b5, b6⟩ := scan_tok [41, 10, 45, 45, 99, 10, 40] tok1.type (.sym [40]) _ hT2 []
-    (by simp) s2 hI2 (by rw [hrest']; rfl)
-  have p2 := scan_tok_pnl tok1.type (.sym [40]) _ hT2 [] (by simp) s2 (by rw [hrest']; rfl) tok2 pnl2 s3 b1
-  have p2' : pnl2 = false := by rw [p2]; simp
-  have ty2 : tok2.type = 40 := by rw [b2]; decide +kernel
-  rw [← hredo] at b1
-  obtain ⟨e2, _⟩ := lexAll_tok tok1.type s1 s3 tok2 pnl2 b1 (by omega)
-  -- end of the text
-  obtain ⟨tok3, pnl3, s4, c1, c2, _⟩ := scan_eof [41, 10, 45, 45, 99, 10, 40] tok2.type [] (by simp) s3 b6 b5
-  have p3 := scan_eof_pnl tok2.type [] (by simp) s3 b5 tok3 pnl3 s4 c1
-  obtain ⟨e3, _⟩ := lexAll_eof tok2.type s3 s4 tok3 pnl3 c1 (by omega)
-  unfold lex
-  rw [e1, e2, e3, p1', p2', p3]
-  rfl
+    have hrest := ih (i + 1) _ (pre ++ renderSeps (lay i) ++ t.render) { type := pt.type, line := pt.line } L'
+      (fun t' ht' => hwf t' (List.mem_cons_of_mem _ ht')) hL' hl.2 hok.2
+      (by
+        intro h41
+        simp only at h41
+        rw [hty] at h41
+        refine ⟨pre ++ renderSeps (lay i), by rw [tokType_41 t (hwf t (List.mem_cons_self ..)) h41], ?_⟩
+        exact hline)
+    simp only at hrest
+    rw [hrest, hty]
+    congr 1
+    rw [hok.1, hty]
+    by_cases hc : tokType t = 40 ∧ prev.type = 41
+    · obtain ⟨P, hP, hPl⟩ := hprev hc.2
+      have hle : lineEnds (pre ++ renderSeps (lay i)) = lineEnds P + lineEnds (renderSeps (lay i)) := by
+        rw [hP, List.append_assoc,
+          LexSpec.lineEnds_append ([41] ++ renderSeps (lay i)) (HeadNot.cons _ _ _ (by decide)) P.length P (Nat.le_refl _),
+          List.singleton_append, LexSpec.lineEnds_cons_plain 41 _ (by decide)]
+      have hne : (pt.line ≠ prev.line) ↔ (renderSeps (lay i)).any LexSpec.isNewline = true := by
+        rw [hline, hPl, hle, ← lineEnds_pos_iff]
+        constructor
+        · intro h e; apply h; rw [e]; simp
+        · intro h e; apply h; push_cast at e; omega
+      simp only [hc.1, hc.2, true_and, and_self, decide_true, Bool.true_and]
+      by_cases hany : (renderSeps (lay i)).any LexSpec.isNewline = true
+      · rw [hany]; simp [hne.mpr hany]
+      · have hany' : (renderSeps (lay i)).any LexSpec.isNewline = false := by simpa using hany
+        rw [hany']
+        simp only [decide_eq_false_iff_not]
+        intro h; exact hany (hne.mp h)
+    · have h1 : decide (tokType t = 40 ∧ prev.type = 41) = false := by simpa using hc
+      rw [h1]
+      simp only [Bool.false_and, decide_eq_false_iff_not]
+      intro hh; exact hc ⟨hh.1, hh.2.1⟩
 
 end GLua.Lexer
